@@ -522,6 +522,22 @@ def check_listing(rep, repo, f, sec, sort, line_items, pa_c):
             return None
         from ..canon import rewrite as _rw
         line = canon(resolve(_rw(arr[3], or_default), decide))
+        if not noassign:
+            # sep.join(labels) + sep on a NON-EMPTY group (this is the "with assignees" case) = every label followed by sep
+            def close_join(x):
+                if x[0] == 'fstr':
+                    ps = list(x[1])
+                    for k_ in range(len(ps) - 1):
+                        a_, b_ = ps[k_], ps[k_ + 1]
+                        if a_[0] == 'srep' and a_[3][0] == 'const' and isinstance(a_[3][1], str) and a_[3][1] and b_[0] == 'const' and isinstance(b_[1], str) and b_[1].startswith(a_[3][1]):
+                            sep_ = a_[3][1]
+                            el_ = a_[2]
+                            el2 = ('fstr', (tuple(el_[1]) if el_[0] == 'fstr' else (el_,)) + (C(sep_),))
+                            ps[k_] = ('srep', a_[1], el2, C(''))
+                            ps[k_ + 1] = C(b_[1][len(sep_):])
+                            return ('fstr', tuple(p_ for p_ in ps if p_ != C('')))
+                return None
+            line = canon(_rw(line, close_join))
         want = ref_line(sort, j, noassign, pa_c)
         case = 'without assignees' if noassign else 'with assignees'
         if equiv(line, want) or (noassign and equiv(line, ref_line(sort, j, True, pa_c, literal_zero=True))):
@@ -575,7 +591,8 @@ def is_own_group(c, key, j):
         return False
     ch, k, val, jj = ge
     b = ch[-1][0]
-    return jj == j and k == A(b, key) and val == b
+    # (what is collected per assignee - the pair, or a label made from it - does not matter for emptiness or length)
+    return jj == j and k == A(b, key)
 
 
 def student_sel(arr):
